@@ -684,3 +684,37 @@ c.returns(T.Opaque("pair"))
 c.ens("all-objects-of-the-decoded-stream-in-order-and-N", lambda stream, k, result, trace: (
     list(result[0]) == ["o1", "o2", "o3"][:k] and trace[0][1]["data"] == "decoded-object-stream" and trace[1][0].endswith("set_document")
     and ((result[1] == 0) if stream._k == "N-absent" else eq(result[1], stream._n))))
+
+
+# -- find_xref: the number on the last non-blank line before (in file order) the LAST `startxref` line; anything else is "no valid xref" ----------------------
+class _TailLines(T.Sort):
+    """the end of a file as the lines revreadlines() hands out (last line first)"""
+    CASES = {
+        "plain": ([b"%%EOF\n", b"1234\n", b"startxref\n", b"trailer\n"], 1234),
+        "crlf-and-spaces": ([b"%%EOF\r\n", b"  77 \r\n", b"startxref\r\n"], 77),
+        "blank-lines-between": ([b"%%EOF", b"\n", b"9\n", b"\n", b" \n", b"startxref\n"], None),      # decided below: blanks are skipped
+        "two-startxref-the-last-one-wins": ([b"%%EOF\n", b"500\n", b"startxref\n", b"%%EOF\n", b"100\n", b"startxref\n"], 500),
+        "zero": ([b"%%EOF\n", b"0\n", b"startxref\n"], 0),
+        "not-a-number": ([b"%%EOF\n", b"12x\n", b"startxref\n"], "no-valid-xref"),
+        "negative": ([b"%%EOF\n", b"-5\n", b"startxref\n"], "no-valid-xref"),
+        "nothing-after-startxref": ([b"startxref\n", b"1 0 obj\n"], "no-valid-xref"),
+        "no-startxref": ([b"%%EOF\n", b"1234\n", b"trailer\n"], "no-valid-xref"),
+        "empty-file": ([], "no-valid-xref"),
+    }
+    CASES["blank-lines-between"] = (CASES["blank-lines-between"][0], 9)
+    def fresh(self, ctx, name):
+        k = ctx.choose(sorted(self.CASES), "tail")
+        lines = list(self.CASES[k][0])
+        return SObj(None, {"revreadlines": SymFn(lambda I: list(lines), "revreadlines"), "_case": k}, name)
+    def sample(self, rng):
+        return None
+    def from_model(self, ev, v):
+        return v.f["_case"]
+
+
+c = contract("pdfminer.pdfdocument:PDFDocument.find_xref", props=["C02", "C13"])
+c.param("self", T.Obj("pdfminer.pdfdocument:PDFDocument")).param("parser", _TailLines())
+c.skip_cross = True
+c.returns(T.Int())
+c.may_raise(pdm.PDFNoValidXRef, lambda parser: _TailLines.CASES[parser._case][1] == "no-valid-xref")
+c.ens("offset-after-the-last-startxref", lambda parser, result: _TailLines.CASES[parser._case][1] != "no-valid-xref" and result == _TailLines.CASES[parser._case][1])
